@@ -157,6 +157,6 @@ SPECS['C09'] = dict(
           'full parser/stream path in a forked ASan child. non-trivial = the rule has a list, an INTERVAL or a COUNT (not a plain single-value rule); distinct = case text'),
     assumptions=['a budget overrun is only reported after the same case also overran a 3x budget',
                  'what dates come out is not judged here'],
-    quick=dict(workers=16, cases=300, size=100, timeout=1500),
+    quick=dict(workers=16, cases=1500, size=100, timeout=1500),
     thorough=dict(workers=16, cases=30000, size=100, timeout=7200),
 )
